@@ -845,7 +845,17 @@ def r04_2(ctx):
     for bb, t in ep.calls():
         if (fn_of(t) or {}).get("name") == "split_at":
             tr = trace(ep, t["args"][1])
-            ok = bool(tr.origin and tr.origin[0] == "call" and ((fn_of(tr.origin[2]) or {}).get("resolved") or (fn_of(tr.origin[2]) or {}).get("def")) == nv.id and any(s[0] == "downcast" and s[1] in ("Continue", "Ok") for s in tr.steps))
+            # (the calculator may be reached through a thin wrapper that converts the budget and hands the slice on:
+            # `fn next_value_size(input, limit) { value_size(input, Depth(limit)) }`)
+            calc_ids = {nv.id}
+            for wb in lib.bodies:
+                if wb.raw["def_kind"] == "Fn" and wb.id != nv.id and len(list(wb.calls())) <= 6 and not any(wb.on_cycle(x_) for x_ in wb.reach()):
+                    tails = [t_ for _, t_ in wb.calls() if ((fn_of(t_) or {}).get("resolved") or (fn_of(t_) or {}).get("def")) == nv.id and not t_["dest"]["pr"] and t_["dest"]["l"] == 0]
+                    if len(tails) == 1 and tails[0]["args"]:
+                        at_ = trace(wb, tails[0]["args"][0])
+                        if at_.origin and at_.origin[0] == "arg" and at_.origin[1] == 1 and all(x_[0] in ("use", "ref", "deref") for x_ in at_.steps):
+                            calc_ids.add(wb.id)
+            ok = bool(tr.origin and tr.origin[0] == "call" and ((fn_of(tr.origin[2]) or {}).get("resolved") or (fn_of(tr.origin[2]) or {}).get("def")) in calc_ids and any(s[0] == "downcast" and s[1] in ("Continue", "Ok") for s in tr.steps))
             same = False
             if ok:
                 a = trace(ep, t["args"][0])
